@@ -30,7 +30,8 @@ def build(tier, seed):
         items.append((Harness(hn, {"kind": "DenseGenerator", "parity_bits": r, "message_bits": k, "input": "every %dx%d generator part and every pair of messages" % (r, k),
                                     "oracle": "word = [message | G*message]; encode(m1+m2) == encode(m1)+encode(m2)"}, 3.0 + r * k, unwindset=us),
                       "crate::c02_encode_dense!(%s, %d, %d, %d);" % (hn, r, k, max(r, k) + 3)))
-    stair = [("s3x2", 2, [[0], [0, 1], [1]]), ("s2x3", 3, [[0, 1], [1, 2]])]
+    # (one H0 with an all-zero row: the running sum must still be carried through it)
+    stair = [("s3x2", 2, [[0], [0, 1], [1]]), ("s2x3", 3, [[0, 1], [1, 2]]), ("s3x2z", 2, [[0, 1], [], [1]])]
     if tier != "quick":
         stair += [("s4x3", 3, [[0, 2], [1], [0, 1, 2], [2]]), ("s3x4", 4, [[0, 3], [1, 2], [0, 1, 2, 3]])]
     global EXTRA
@@ -39,7 +40,8 @@ def build(tier, seed):
         r = len(rows)
         EXTRA += "fn h0_%s() -> SparseMatrix {\n    let mut h = SparseMatrix::new(%d, %d);\n" % (nm, r, k)
         for i, rw in enumerate(rows):
-            EXTRA += "    h.insert_row(%d, [%s].iter());\n" % (i, ", ".join("%dusize" % c for c in rw))
+            if rw:
+                EXTRA += "    h.insert_row(%d, [%s].iter());\n" % (i, ", ".join("%dusize" % c for c in rw))
         EXTRA += "    h\n}\n"
         EXTRA += "const H0B_%s: [[bool; %d]; %d] = [%s];\n" % (nm, k, r, ", ".join("[" + ", ".join("true" if c in rw else "false" for c in range(k)) + "]" for rw in rows))
         hn = "c02_encode_stair_%s" % nm
